@@ -20,7 +20,47 @@ FUNCTIONS = ['MIP.mip (blocks, cards, cellcard/surfacecard/datacard split)', 'MI
              'writeT4Geometry / VolumeT4.__str__ / SurfaceT4.__str__', 'writeT4Composition', 'writeT4GeomComp']
 
 
+def dup_union_deck(rnd):
+    """a union whose operands use two cards of the SAME surface (pz p / p 0 0 1 q with q = p on one path of the
+    solver) with opposite senses: the operand is empty only once the duplicates have been merged."""
+    from fractions import Fraction as Fr
+    import z3
+    from .. import deck as dk
+    d = dk.Deck()
+    pre = []
+    p_, q_ = gen.V('p'), gen.V('q')
+    form = rnd.choice(['pz/p', 'so/s', 'px/px'])
+    if form == 'pz/p':
+        s3, s4 = dk.Surf(3, 'pz', [p_]), dk.Surf(4, 'p', [Fr(0), Fr(0), Fr(1), q_])
+    elif form == 'so/s':
+        pre += [z3.Real('p') > 0, z3.Real('q') > 0]
+        s3, s4 = dk.Surf(3, 'so', [p_]), dk.Surf(4, 's', [Fr(0), Fr(0), Fr(0), q_])
+    else:
+        s3, s4 = dk.Surf(3, 'px', [p_]), dk.Surf(4, 'px', [q_])
+    d.surfs = [dk.Surf(1, 'py', [Fr(rnd.choice([0, 1]))]), dk.Surf(2, 'so', [Fr(10)]), s3, s4]
+    slab = [('s', 3), ('s', -4)] if rnd.random() < 0.5 else [('s', -3), ('s', 4)]
+    rnd.shuffle(slab)
+    big = ('and', ('s', -1)) + tuple(slab)
+    if rnd.random() < 0.5:
+        big = big + (('s', -2),)
+    others = [('and', ('s', -1), ('s', -slab[0][1])), ('s', 1), ('and', ('s', 1), ('s', -2))]
+    k = rnd.randint(1, 2)
+    ops = [big] + rnd.sample(others, k)
+    if rnd.random() < 0.5:
+        rnd.shuffle(ops)
+    e = ('or',) + tuple(ops)
+    if rnd.random() < 0.4:
+        e = ('and', ('s', -2), e)
+    d.mats[1] = [('13027', '1.0')]
+    d.cells.append(dk.Cell(1, e, mat=1, rho='-2.7', imp=1))
+    d.cells.append(dk.Cell(2, ('and', ('cell', 1), ('s', -2)), imp=rnd.choice([0, 1])))
+    d.cells.append(dk.Cell(3, ('and', ('cell', 1), ('s', 2)), imp=0))
+    return d, pre
+
+
 def make(task):
+    if task[0] == 'dup-union':
+        return dup_union_deck(random.Random(task[1]))
     sd, nsurf, ncells, leaves = task
     rnd = random.Random(sd)
     deck, pre = gen.partition_deck(rnd, nsurf=nsurf, ncells=ncells, max_leaves=leaves)
@@ -40,6 +80,7 @@ def run(tier):
         tasks = [(base + i, 2 + i % 3, 2 + i % 3, 1 + i % 4) for i in range(64)]
     else:
         tasks = [(base + i, 2 + i % 4, 2 + i % 4, 1 + i % 6) for i in range(4000)]
+    tasks += [('dup-union', base + i) for i in range(12 if tier == 'quick' else 300)]
     for r in run_pool(worker, tasks):
         rep.merge(r)
     rep.explanation = ('Generated MCNP partition decks (cell i = e_i and not the earlier cells, written with #n) with symbolic surface '
